@@ -6,7 +6,8 @@ Extraction Language OCaml.
 Separate Extraction Util.align_up Util.align_down Gran.gran_init Tlsf.tlsf_init Tlsf.step Tlsf.regions
   Tlsf.allocation_count Tlsf.sum_free_size Tlsf.is_empty Tlsf.free_regions_count Tlsf.validate
   Tlsf.add_statistics Tlsf.add_detailed_statistics Tlsf.iterate Tlsf.get_user_data Tlsf.find_blk
-  Tlsf.list_of_size
+  Tlsf.list_of_size Tlsf.size_to_class Tlsf.size_to_sli Tlsf.list_index Tlsf.size_for_next_list
+  Gran.conflict Gran.round_up Gran.mkGran Linear.blocks_on_same_page
   Linear.linear_init Linear.step Linear.allocation_count Linear.sum_free_size Linear.is_empty
   Linear.validate Linear.visit_regions Linear.add_statistics Linear.add_detailed_statistics
   Linear.get_user_data Linear.set_user_data Linear.may_have_free Linear.allocation_offset
